@@ -4732,6 +4732,25 @@ def split_tuple_assigns(fn):
             i = 0
             while i < len(blk):
                 st = blk[i]
+                # `t = (a, b)` ... `x, y = t` (t used nowhere else)
+                if isinstance(st, ast.Assign) and len(st.targets) == 1 and \
+                        isinstance(st.targets[0], ast.Tuple) and isinstance(
+                        st.value, ast.Name):
+                    t_ = st.value.id
+                    ds = [s_ for s_ in blk[:i] if isinstance(s_, ast.Assign)
+                          and len(s_.targets) == 1 and norm(
+                              s_.targets[0]) == t_]
+                    refs = [n for n in ast.walk(fn) if isinstance(
+                        n, ast.Name) and n.id == t_]
+                    if len(ds) == 1 and len(refs) == 2 and isinstance(
+                            ds[0].value, ast.Tuple) and len(
+                            ds[0].value.elts) == len(st.targets[0].elts) \
+                            and blk.index(ds[0]) == i - 1:
+                        st.value = ds[0].value
+                        blk.remove(ds[0])
+                        i -= 1
+                        st = blk[i]
+                        done = True
                 if isinstance(st, ast.Assign) and len(st.targets) == 1 and \
                         isinstance(st.targets[0], ast.Tuple) and isinstance(
                         st.value, ast.Tuple) and len(st.targets[0].elts) == \
